@@ -106,6 +106,10 @@ def run(ctx):
         a_, b_, _ = matrix(ctx, ex, ["named"], ["attr", "derive"] if not ctx.quick else ["derive"], rcs, traits=sub)
         sub_evals += a_; nontriv += b_
     n += sub_evals
+    # several arguments inside one attribute (ignore+reverse, ignore+key, key+by, ..): same rules, sampled
+    xs = R.extended_combos(rng, 400 if ctx.quick else 12000)
+    a_, b_, _ = matrix(ctx, ex, ["named_after_plain", "variant_tuple"] if ctx.quick else ["named", "tuple", "variant", "variant_tuple"], ["attr", "derive"], xs)
+    n += a_; nontriv += b_
     n2 = misplaced(ctx, ex)
     ex.close()
     g = glayer.run_g(ctx, G_UNITS)
